@@ -402,9 +402,10 @@ def handmade():
            ("doc", [("parent", th, [U("folder")]), ("viewer", ttu("parent", "a"), []), ("editor", th, [Rr("folder", "b")])])]),
         M([("user", []), ("doc", [("a", c("a"), [])])]),
         # a tupleset listing one parent type twice (plain and conditioned) before another parent type
-        [S("1.1"), [[S("user"), [], []],
+        # (the later parent reaches a type the repeated one does not: a parent dropped after the repeat shows as a missing type)
+        [S("1.1"), [[S("user"), [], []], [S("employee"), [], []],
                     [S("folder"), [[S("admin"), th]], [[[[S("admin"), [[U("user")], [], []]]], [], []]]],
-                    [S("team"), [[S("admin"), th]], [[[[S("admin"), [[U("user")], [], []]]], [], []]]],
+                    [S("team"), [[S("admin"), th]], [[[[S("admin"), [[U("employee")], [], []]]], [], []]]],
                     [S("doc"), [[S("parent"), th], [S("viewer"), ttu("parent", "admin")]],
                      [[[[S("parent"), [[U("folder"), [S("folder"), [0], S("condX")], U("team")], [], []]],
                         [S("viewer"), [[], [], []]]], [], []]]]],
